@@ -33,6 +33,9 @@ STORE_CALLS = {"PyTuple_SET_ITEM": 2, "PyList_SET_ITEM": 2}
 
 class MNull(CExec):
     family = "M-NULL"
+    ASSUMES = [
+        "M-NULL: the table FALLIBLE (which API functions may return NULL for lack of memory) and the sinks (which uses need a "
+        "non-NULL object); a result made in one loop iteration and used in a later one is not tracked"]
 
     @classmethod
     def applies(cls, tu, fn):
